@@ -16,6 +16,9 @@ CLAIMED = {
  "C14": dict(text="&,|,^ and <<,>> of all 20 integer/Word types are under contract. Native widths: &,|,^ proved exactly in the bit-vector encoding, shifts proved against x*2^n truncated / floor(x/2^n) in the Int encoding for every shift amount; negative amounts fail. 128/256-bit types: shifts proved against the same mathematical spec through the two's-complement helpers, &,|,^ proved to be math/big's two's-complement operation with the result in range; Int/UInt: exact shl/shr, Overflow only for amounts not fitting 64 bits. Two genuine defects were found by these obligations, replayed, and repaired (fix: commits); reverting either fix re-raises the violation.",
              note="Trusted: math/big And/Or/Xor/Lsh/Rsh/SetBytes/FillBytes/Bytes semantics (assumed contracts, conformance-tested), the byte helpers values.SignedBigIntToSizedBigEndianBytes / BigEndianBytesToSignedBigInt and interpreter.truncate (assumed contracts on repository code: their bodies loop over bytes/words), modular-arithmetic lemma instances L_modmul/L_mulsign (products treated as uninterpreted in the 128/256-bit left-shift proofs), bounds on the uninterpreted 2^n for wide exponents.",
              technique="deductive: contracts + VC generator over go/ssa (bit-vector and Int encodings), SMT, counterexample refinement + replay", ref="6 (C14)"),
+ "C46": dict(text="rlp.ReadSize and rlp.DecodeString are proved, for every input byte string and start index >= 0, to succeed exactly on the canonical encodings defined by spec functions written from the RLP definition and to return the payload slice and consumed length; rlp.DecodeList is proved free of run-time panics (loop invariant) with its consumed length equal to header plus payload; the Cadence wrappers are proved to fail only with their user error type or a metering error. Every index, slice and make site is a discharged safety obligation. Two genuine crashes were found, replayed and repaired.",
+             note="Bit-vector encoding (exact machine arithmetic). Trusted: atree-backed conversions ByteArrayValueToByteSlice/ByteSliceToByteArrayValue/NewArrayValueWithIterator (assumed, the iterator closure is not executed), err.Error(). DecodeList's postcondition does not describe the item contents (slices of slices are tracked by identity only) nor that err==nil iff the payload is a sequence of canonical items (needs a recursive predicate; not expressed).",
+             technique="deductive: contracts + loop invariant + VC generator over go/ssa (bit-vector encoding), SMT, small-counterexample search + replay", ref="6 (C46)"),
  "C32": dict(text="For Int/UInt and the 128/256-bit integer types, +,-,*,/,%,negate are proved to meter (ghost sum of the amounts accepted by the memory gauge) at least 8 bytes per word of the result, for all operands, on top of per-estimator contracts (estimate >= size of the operation's result). All eleven estimators of common/metering.go are under contract. Three estimator obligations fail on the pinned tree, are confirmed by replay and recorded as known findings (Mod vs Rem result size, right-shift b/8 vs b/64, left-shift int overflow); they change consensus-visible metering, so they are reported, not repaired.",
              note="Over assumed word-length lemmas (L_words_*: |x+y| <= max+1 words, |x*y| <= sum, quotient/remainder bounds, small-magnitude bounds), instantiated explicitly and listed in the contracts; len(x.Bits()) is the uninterpreted words(x); big.Int lengths assumed <= 2^40 words; the quotient estimate is proved only for divisors below 100 words (the recursive-division branch is nonlinear and not decided). Memory gauge assumed to have no effect but accepting/refusing.",
              technique="deductive: contracts with a ghost meter + VC generator over go/ssa, SMT; counterexamples replayed with a recording gauge", ref="6 (C32)"),
